@@ -244,6 +244,20 @@ CLAIMED["C19"] = dict(
     technique="Lean 4 proof (table-by-table characterisation of the model) + differential correspondence + direct oracle on the real output",
     design="DESIGN.md#c19",
 )
+CLAIMED["C18"] = dict(
+    engine="E-symbols",
+    text="Lean theorems for every module, rule set and retarget map: CFI directives and symbolForwarding targets are "
+    "mapped exactly through the map and nothing else in them changes; a SymAddrConst that mentioned a retargeted "
+    "symbol mentions its image with the same addend, place and the attributes of the unique matching rule (kept "
+    "when no rule matches), any other expression is untouched, expressions are neither lost nor created; "
+    "_retarget_out_edges keeps every edge that does not leave the given block towards the old referent as a branch "
+    "or call. Tie: RewritingContext.retarget_symbol_uses + apply() on generated PIE and non-PIE modules (control "
+    "flow, code references, data words, CFI personality/LSDA, symbolForwarding, internal/external in every "
+    "combination, chains, invalid requests) against the compiled model; the output CFG against the flat-CFG "
+    "specification of C03 (return edges: recorded finding). The ABI's rule table is read from the live object.",
+    technique="Lean 4 proof (characterisation of the model by induction over the expression list / edge fold) + differential correspondence + executable-spec oracle (flat CFG) on the real output",
+    design="DESIGN.md#c18",
+)
 
 ALL = ["C%02d" % i for i in range(1, 21)]
 
